@@ -214,7 +214,7 @@ func (c *Ctx) Violation(key, msg, kind string, cs interface{}) {
 	b, _ := json.MarshalIndent(rp, "", " ")
 	_ = os.WriteFile(path, b, 0o644)
 	fmt.Printf("VIOLATION property=%s replay=%s\n", c.ID, path)
-	fmt.Printf("  detail: %s :: %s\n", key, msg)
+	fmt.Printf("  detail: %s :: %s\n", strings.ToValidUTF8(key, "\uFFFD"), strings.ToValidUTF8(msg, "\uFFFD")) // file names under test may hold arbitrary bytes
 }
 
 // Inconclusive: a case that could not be decided (watchdog, ambiguous boundary).
